@@ -13,7 +13,7 @@ gt = {'target': [type,id,gen], 'objs': [[argindex, kind('obj'|'new'), type,id,ge
 from . import wlxml, printer
 
 SERVER_ID_START = 0xff000000
-STRINGS = ['[1.000] <7>  -> x@1.y(', 'q [2.5] <0> a#1.b(', 'two  spaces', 'tab\there', 'wl_seat', 'wl_surface', '5', 'left', '', 'hello', 'Hello World', 'org.gnome.gedit', 'a, b', 'f(x, y)', '[x]', ', ', ')', 'żółć', ' lead', 'it\'s',
+STRINGS = ['[1.000] <7>  -> x@1.y(', 'q [2.5] <0> a#1.b(', 'x} <7>  -> x#1.y(', 'state {a 3} <9> wl_surface#14.commit(', 'less: [1.5] {Default Queue} <3> wl_display@1.sync(new id wl_callback@9)', '} a#1.b(', 'two  spaces', 'tab\there', 'wl_seat', 'wl_surface', '5', 'left', '', 'hello', 'Hello World', 'org.gnome.gedit', 'a, b', 'f(x, y)', '[x]', ', ', ')', 'żółć', ' lead', 'it\'s',
            'wl_surface@3', 'nil', '-7', 'x' * 40, 'title (1) [2]']
 UNKNOWN_IFACES = ['zz_unknown_v1', 'my_private_iface', 'vq_thing']
 POPULAR = ['wl_compositor', 'wl_shm', 'wl_seat', 'wl_data_device_manager', 'xdg_wm_base', 'wl_subcompositor', 'wl_output',
